@@ -44,6 +44,7 @@ class TradeSpec:
         self.fixed, self.prop = fees["fixed"].v, fees["proportional"].v
 
     # target in numbers of contracts
+    @keymemo
     def tgt(self, k):
         a = self.aget(k)
         if self.weights_mode:
@@ -53,10 +54,12 @@ class TradeSpec:
             val = Fl(a.v)
         return val, z3.And(self.adom(k), z3.Or(val.nan, val.v != 0))
 
+    @keymemo
     def hold(self, k):
         q = self.v.qty(k)
         return Fl(q), z3.And(self.v.in_qty(k), z3.Not(is_cash(k)), q != 0)
 
+    @keymemo
     def imb(self, k):
         t, tin = self.tgt(k)
         if not self.absolute:
@@ -65,15 +68,18 @@ class TradeSpec:
         val = Fl(z3.If(tin, t.v, 0) - z3.If(hin, h.v, 0), z3.simplify(z3.And(tin, t.nan)))
         return val, z3.And(z3.Or(tin, hin), z3.Not(is_cash(k)), z3.Or(val.nan, val.v != 0))
 
+    @keymemo
     def wimb(self, k):
         q, _ = self.imb(k)
         p = acq_fl(self.v, k, q.v)
         return Fl(mult(k) * q.v * p.v / self.E, z3.simplify(z3.Or(p.nan, q.nan)))
 
+    @keymemo
     def quantity(self, k):
         q, _ = self.imb(k)
         return q.v if self.fractional else z3.ToReal(trunc(q.v))
 
+    @keymemo
     def emitted(self, k):
         """C12: a trade iff the imbalance is non-zero and (|imbalance weight| >= threshold or the contract is held
         but absent from the target); whole lots: truncated toward zero, sub-lot imbalances skipped"""
@@ -85,9 +91,11 @@ class TradeSpec:
     def emitted_modulo_quote(self, k):
         return self.emitted(k)
 
+    @keymemo
     def rejects(self, k):
         return z3.Or(self.v.bid_nan(k), self.v.ask_nan(k))
 
+    @keymemo
     def fields(self, k):
         q = self.quantity(k)
         b, a = self.v.bid(k), self.v.ask(k)
@@ -123,7 +131,9 @@ class MakeTrades(Contract):
         ]
 
     def spec(self, c):
-        return TradeSpec(c.I, c.old, c.self, c.broker)
+        if "spec" not in c.ghost:
+            c.ghost["spec"] = TradeSpec(c.I, c.old, c.self, c.broker)
+        return c.ghost["spec"]
 
     def conds(self, c):
         I = c.I
